@@ -113,12 +113,33 @@ def op_strategy(focus, pool):
 def _prefix():
     ti = st.integers(0, 11)
     wi = st.integers(-NW, -1)
-    return st.lists(st.one_of(
+    flat = st.lists(st.one_of(
         st.tuples(st.just('append'), wi, ti, st.just('L')),
         st.tuples(st.just('append'), ti, ti, st.just('L')),
         st.tuples(st.just('append'), ti, ti, st.just('L')),
         st.tuples(st.just('pred_append'), ti, ti, st.just('L')),
     ), min_size=0, max_size=8)
+
+    @st.composite
+    def deep(draw):
+        # a chain a{b{c{d}}} (optionally inside a WBS), a second small tree, and links that start deep in the chain
+        a = draw(st.integers(0, 5))
+        n = draw(st.integers(3, 5))
+        ops = []
+        if draw(st.booleans()):
+            ops.append(('append', draw(wi), a, 'L'))
+        for k in range(n - 1):
+            ops.append(('append', a + k, a + k + 1, 'L'))
+        o = a + n
+        if draw(st.booleans()):
+            ops.append(('append', o, o + 1, 'L'))
+        if draw(st.booleans()):
+            ops.append(('append', draw(wi), o, 'L'))
+        for _ in range(draw(st.integers(1, 3))):
+            ops.append((draw(st.sampled_from(['pred_append', 'succ_append'])), a + draw(st.integers(1, n - 1)),
+                        o + draw(st.integers(0, 1)), 'L'))
+        return ops
+    return st.one_of(flat, flat, deep())
 
 
 @st.composite
@@ -144,7 +165,14 @@ SHAPES = {
     'fork-detached': [('append', 0, 1, ''), ('append', 0, 2, '')],
     'linked-pair': [('append', -1, 0, ''), ('append', -1, 1, ''), ('pred_append', 1, 0, ''), ('append', -2, 3, '')],
     'two-wbs': [('append', -1, 0, ''), ('append', 0, 1, ''), ('append', -2, 3, ''), ('pred_append', 2, 1, '')],
+    'detached-chain-linked-leaf': [('append', 0, 1, ''), ('append', 1, 2, ''), ('pred_append', 2, 3, '')],
+    'linked-grandchild': [('append', 0, 3, ''), ('append', 1, 2, ''), ('succ_append', 2, 0, '')],
+    'wbs-with-two-branches': [('append', -1, 0, ''), ('append', 0, 2, ''), ('append', -1, 1, '')],
 }
+
+
+# shapes whose point is a link / hierarchy conflict use pairwise distinct ids (no id clash masks the conflict)
+SHAPE_IDS = {'detached-chain-linked-leaf': [1, 2, 3, 4], 'linked-grandchild': [1, 2, 3, 4]}
 
 
 def small_alphabet(reduced=True):
@@ -207,9 +235,34 @@ def small_alphabet(reduced=True):
     return ops
 
 
-def small_histories(length, reduced=True):
-    alpha = small_alphabet(reduced)
+def tiny_alphabet():
+    """hierarchy / membership calls only, single-task arguments (for complete 2-step enumeration in the quick tier)"""
+    ts = range(4)
+    owners = list(ts) + [-1, -2]
+    ops = []
+    for t in ts:
+        for p in list(ts) + [None]:
+            ops.append(('set_parent', t, p, ''))
+    for o in owners:
+        for t in ts:
+            ops.append(('append', o, t, ''))
+            ops.append(('remove', o, t, ''))
+        ops.append(('remove_all', o, [1, 2], ''))
+        ops.append(('set_children', o, [1, 0], 'list', ''))
+        ops.append(('set_children', o, [3], 'list', ''))
+        ops.append(('floordiv', o, [2], ''))
+    for w in range(SMALL_NW):
+        for t in ts:
+            ops.append(('wbs_remove', w, t, ''))
+    for t in ts:
+        for x in ts:
+            ops.append(('pred_append', t, x, ''))
+    return ops
+
+
+def small_histories(length, reduced=True, tiny=False):
+    alpha = tiny_alphabet() if tiny else small_alphabet(reduced)
     for name, shape in SHAPES.items():
         for combo in itertools.product(alpha, repeat=length):
-            yield {'ids': SMALL_IDS, 'nw': SMALL_NW, 'shape': name,
+            yield {'ids': SHAPE_IDS.get(name, SMALL_IDS), 'nw': SMALL_NW, 'shape': name,
                    'ops': [list(o) for o in shape] + [list(o) for o in combo]}
